@@ -45,6 +45,7 @@ const (
 	sigEmptyRestart = "C14/indexer/empty-db-restart-skips-committed-block"
 	sigGiveUp       = "C14/indexer/startup-gives-up-after-11-failed-fetches"
 	sigRpcPrefix    = "C14/indexer/not-convergent-after-transient-rpc-failure/"
+	sigPrunedSkip   = "C14/indexer/pruned-restart-skips-earliest-block"
 	sigNotConverge  = "C14/indexer/crash-not-convergent"
 	sigReindex      = "C14/indexer/reindex-changes-index"
 	sigLookup       = "C14/indexer/lookup-disagrees-with-block-position"
@@ -474,6 +475,7 @@ type incSpec struct {
 	Start     int64                 `json:"node_height_at_start"`
 	End       int64                 `json:"node_height_at_end"`
 	Kill      int                   `json:"killed_after_writes"`      // <0: not killed
+	Earliest  int64                 `json:"node_earliest_height"`     // the node's EarliestBlockHeight during this life (blocks below are pruned)
 	StartFail string                `json:"start_fails_at,omitempty"` // "Status" | "Subscribe": OnStart returns an error
 	Plan      map[int64]*heightPlan `json:"node_client_failures,omitempty"`
 }
@@ -521,6 +523,7 @@ func (r *recIndexer) indexed(h int64) bool {
 
 type lifeObs struct {
 	emptyAtStart bool
+	lastAtStart  int64 // LastIndexedBlock when the life began
 	killed       bool
 	startFailed  bool
 	stalled      string         // non-empty: the service never got where it had to
@@ -530,13 +533,14 @@ type lifeObs struct {
 }
 
 // runLife runs one life of the real EVMIndexerService over the (surviving) inner DB.
-func (d *driver) runLife(w *world, inner sdkdb.DB, earliest int64, in incSpec) lifeObs {
+func (d *driver) runLife(w *world, inner sdkdb.DB, in incSpec) lifeObs {
+	earliest := in.Earliest
 	t := d.t
 	kdb := newKillDB(inner, in.Kill)
 	idx := &recIndexer{KVIndexer: w.newIndexer(kdb), ok: map[int64]bool{}}
 	last, err := idx.LastIndexedBlock()
 	require.NoError(t, err)
-	obs := lifeObs{emptyAtStart: last == -1}
+	obs := lifeObs{emptyAtStart: last == -1, lastAtStart: last}
 	fc := &fakeClient{w: w, latest: in.Start, earliest: earliest, failStatus: in.StartFail == "Status", failSubscribe: in.StartFail == "Subscribe",
 		plan: map[int64]*heightPlan{}}
 	for h, hp := range in.Plan {
@@ -563,7 +567,7 @@ func (d *driver) runLife(w *world, inner sdkdb.DB, earliest int64, in incSpec) l
 	if last == -1 {
 		cur = in.Start
 	} else if last < earliest {
-		cur = earliest
+		cur = earliest - 1
 	}
 	obs.cursor = cur
 	if !waitFor(func() bool { return idx.IsReady() || returned() }) {
@@ -678,13 +682,6 @@ func (w *world) heightOfEntry(t *testing.T, e kv) int64 {
 
 func (d *driver) svcCase(ci int, r *Rng, w *world, views [][]txView, canon string) {
 	n := int64(len(w.blocks))
-	earliest := int64(1)
-	switch r.Intn(10) {
-	case 0:
-		earliest = 0
-	case 1:
-		earliest = 2 + int64(r.Intn(3)) // pruned node: correspondence only
-	}
 	// first start: the node is at s0 and the index DB is empty
 	s0 := int64(0)
 	if r.Chance(40) {
@@ -723,7 +720,28 @@ func (d *driver) svcCase(ci int, r *Rng, w *world, views [][]txView, canon strin
 		}
 	}
 	incs = append(incs, incSpec{Start: start, End: n, Kill: -1})
-	d.svcHistory("CSvc", ci, r, w, views, canon, earliest, s0, incs, true)
+	// the node's earliest height: 1 (nothing pruned), 0 (unknown), or a node that prunes while the indexer is down
+	switch mode := r.Intn(10); {
+	case mode == 0:
+		// Earliest = 0 in every life
+	case mode <= 7:
+		for j := range incs {
+			incs[j].Earliest = 1
+		}
+	default:
+		e := int64(1)
+		if s0 > 1 {
+			e += int64(r.Intn(int(s0)))
+		}
+		for j := range incs {
+			if j > 0 && incs[j].Start > e && r.Chance(60) {
+				e += int64(1 + r.Intn(int(incs[j].Start-e)))
+			}
+			incs[j].Earliest = e
+		}
+		d.side.Count("svc:node_prunes_between_lives")
+	}
+	d.svcHistory("CSvc", ci, r, w, views, canon, s0, incs, true)
 }
 
 // svcDirected: the history the random schedules reach only now and then, once per chain that allows it: the index holds
@@ -757,20 +775,27 @@ func (d *driver) svcDirected(ci int, r *Rng, w *world, views [][]txView, canon s
 			hp.Results = append(hp.Results, true)
 		}
 	}
-	first := incSpec{Start: h0 - 1, End: h0, Kill: -1}
-	second := incSpec{Start: n, End: n, Kill: -1, Plan: map[int64]*heightPlan{h: hp}}
+	first := incSpec{Start: h0 - 1, End: h0, Kill: -1, Earliest: 1}
+	second := incSpec{Start: n, End: n, Kill: -1, Earliest: 1, Plan: map[int64]*heightPlan{h: hp}}
+	third := incSpec{Start: n, End: n, Kill: -1, Earliest: 1}
 	loop := "catch-up"
-	if r.Chance(35) {
+	switch x := r.Intn(100); {
+	case x < 30:
 		second.Start = h0 // the node announces the burst h0+1..n to the running service
 		loop = "live"
+	case x < 50:
+		// while the indexer was down the node pruned everything below h: h itself is the first block it still serves
+		second.Earliest, third.Earliest = h, h
+		second.Plan = nil
+		loop, passes = "pruned-restart", 0
 	}
 	d.side.Count(fmt.Sprintf("svc_directed:%s:failed_passes:%d", loop, passes))
-	incs := []incSpec{first, second, {Start: n, End: n, Kill: -1}}
-	d.svcHistory("CSvc-directed", ci, r, w, views, canon, 1, h0-1, incs, false)
+	incs := []incSpec{first, second, third}
+	d.svcHistory("CSvc-directed", ci, r, w, views, canon, h0-1, incs, false)
 }
 
 // svcHistory runs the lives on the real service and checks them (model correspondence + convergence oracle).
-func (d *driver) svcHistory(kind string, ci int, r *Rng, w *world, views [][]txView, canon string, earliest, s0 int64, incs []incSpec, drawPlans bool) {
+func (d *driver) svcHistory(kind string, ci int, r *Rng, w *world, views [][]txView, canon string, s0 int64, incs []incSpec, drawPlans bool) {
 	t := d.t
 	if d.stalls >= maxStalls {
 		d.side.Count("svc:case_skipped_after_repeated_stalls")
@@ -799,12 +824,12 @@ func (d *driver) svcHistory(kind string, ci int, r *Rng, w *world, views [][]txV
 			cur := last
 			if last == -1 {
 				cur = in.Start
-			} else if last < earliest {
-				cur = earliest
+			} else if last < in.Earliest {
+				cur = in.Earliest - 1
 			}
 			in.Plan = d.genPlan(r.Fork(uint64(100+j)), cur, in.Start, in.End)
 		}
-		o := d.runLife(w, inner, earliest, *in)
+		o := d.runLife(w, inner, *in)
 		obs = append(obs, o)
 		if o.stalled != "" {
 			d.stalls++
@@ -854,7 +879,7 @@ func (d *driver) svcHistory(kind string, ci int, r *Rng, w *world, views [][]txV
 		if k < 0 {
 			k = 999
 		}
-		lifeTerms = append(lifeTerms, fmt.Sprintf("SL (Inc %s %s %s) %s %s", CqZi(in.Start), CqZi(in.End), CqNat(k), CqBool(in.StartFail != ""), coqPlan(in.Plan)))
+		lifeTerms = append(lifeTerms, fmt.Sprintf("SL (Inc %s %s %s) %s %s %s", CqZi(in.Start), CqZi(in.End), CqNat(k), CqZi(in.Earliest), CqBool(in.StartFail != ""), coqPlan(in.Plan)))
 	}
 	final := dumpDB(t, inner)
 	// oracle (property text): an uninterrupted run over the same chain from the same first start, on a node that always answers
@@ -863,14 +888,14 @@ func (d *driver) svcHistory(kind string, ci int, r *Rng, w *world, views [][]txV
 	for h := s0 + 1; h <= n; h++ {
 		require.NoError(t, ridx.IndexBlock(w.blocks[h-1].block, w.blocks[h-1].res.TxResults))
 	}
-	if earliest <= 1 {
-		d.convergenceOracle(ci, w, s0, incs, obs, final, dumpDB(t, ref))
-		d.side.Count("svc:oracle_checked")
+	d.convergenceOracle(ci, w, s0, incs, obs, final, dumpDB(t, ref))
+	if incs[len(incs)-1].Earliest > 1 {
+		d.side.Count("svc:oracle_checked_on_pruned_node")
 	} else {
-		d.side.Count("svc:pruned_node_correspondence_only")
+		d.side.Count("svc:oracle_checked")
 	}
-	term := fmt.Sprintf("CSvc %s %s %s %s", coqChain(views), CqZi(earliest), CqList(lifeTerms), CqList(dumps))
-	d.add(kind, ci, w, views, term, canon+fmt.Sprint(earliest, lifeTerms), killedEarly || lagging || anyFailure, map[string]interface{}{"earliest": earliest, "lives": incs})
+	term := fmt.Sprintf("CSvc %s %s %s", coqChain(views), CqList(lifeTerms), CqList(dumps))
+	d.add(kind, ci, w, views, term, canon+fmt.Sprint(lifeTerms), killedEarly || lagging || anyFailure, map[string]interface{}{"lives": incs})
 }
 
 // convergenceOracle compares the index after the whole history with the uninterrupted one key by key and attributes
@@ -891,12 +916,17 @@ func (d *driver) convergenceOracle(ci int, w *world, s0 int64, incs []incSpec, o
 	refm := map[string]bool{}
 	missing := map[int64]int{}
 	extra, differ := 0, 0
+	// on a node that has pruned its first blocks only the blocks it still serves when the last life runs are owed
+	// (earlier ones may or may not have been indexed before they were pruned)
+	owedFrom := incs[len(incs)-1].Earliest
 	for _, e := range ref {
 		refm[string(e.k)] = true
 		v, ok := fin[string(e.k)]
 		switch {
 		case !ok:
-			missing[w.heightOfEntry(t, e)]++
+			if h := w.heightOfEntry(t, e); h >= owedFrom {
+				missing[h]++
+			}
 		case !bytes.Equal(v, e.v):
 			differ++
 		}
@@ -959,6 +989,9 @@ func (d *driver) convergenceOracle(ci int, w *world, s0 int64, incs []incSpec, o
 			if cause == "" && nPre >= 11 {
 				cause = sigGiveUp
 			}
+			if cause == "" && o.lastAtStart != -1 && o.lastAtStart < in.Earliest && h == in.Earliest {
+				cause = sigPrunedSkip
+			}
 			for x := range o.indexedOK {
 				if x > maxDone {
 					maxDone = x
@@ -989,6 +1022,8 @@ func (d *driver) convergenceOracle(ci int, w *world, s0 int64, incs []incSpec, o
 		case sigGiveUp:
 			msg = "the node client failed 11 times in a row for a height while the service was catching up: the service gave up on the block and no later restart indexed it"
 			d.side.Count("svc:blocks_lost_to_start_up_give_up")
+		case sigPrunedSkip:
+			msg = "restart on a node that has pruned the blocks after the last indexed one: the service resumed AFTER the node's earliest block instead of AT it, so the first block the node still serves was never indexed"
 		case sigNotConverge:
 			msg = "crash/restart history does not converge to the index of an uninterrupted run"
 		default:
